@@ -55,6 +55,131 @@ fn omit_some_nulls(rng: &mut Rng, v: &Value) -> Value {
     }
 }
 
+/// a GraphQL value literal as JSON (enum names become strings); `None` if the text is not a literal
+fn parse_literal(text: &str) -> Option<Value> {
+    fn ws(s: &[char], i: &mut usize) {
+        while *i < s.len() && (s[*i].is_whitespace() || s[*i] == ',') {
+            *i += 1;
+        }
+    }
+    fn val(s: &[char], i: &mut usize) -> Option<Value> {
+        ws(s, i);
+        let c = *s.get(*i)?;
+        if c == '[' {
+            *i += 1;
+            let mut out = Vec::new();
+            loop {
+                ws(s, i);
+                if *s.get(*i)? == ']' {
+                    *i += 1;
+                    return Some(Value::Array(out));
+                }
+                out.push(val(s, i)?);
+            }
+        }
+        if c == '{' {
+            *i += 1;
+            let mut out = Map::new();
+            loop {
+                ws(s, i);
+                if *s.get(*i)? == '}' {
+                    *i += 1;
+                    return Some(Value::Object(out));
+                }
+                let start = *i;
+                while *i < s.len() && (s[*i].is_alphanumeric() || s[*i] == '_') {
+                    *i += 1;
+                }
+                let key: String = s[start..*i].iter().collect();
+                ws(s, i);
+                if *s.get(*i)? != ':' {
+                    return None;
+                }
+                *i += 1;
+                out.insert(key, val(s, i)?);
+            }
+        }
+        if c == '"' {
+            let start = *i;
+            *i += 1;
+            while *i < s.len() && s[*i] != '"' {
+                if s[*i] == '\\' {
+                    *i += 1;
+                }
+                *i += 1;
+            }
+            *i += 1;
+            let lit: String = s[start..(*i).min(s.len())].iter().collect();
+            return serde_json::from_str(&lit).ok();
+        }
+        let start = *i;
+        while *i < s.len() && !(s[*i].is_whitespace() || ",]}".contains(s[*i])) {
+            *i += 1;
+        }
+        let tok: String = s[start..*i].iter().collect();
+        match tok.as_str() {
+            "true" => Some(json!(true)),
+            "false" => Some(json!(false)),
+            "null" => Some(Value::Null),
+            t => match serde_json::from_str::<Value>(t) {
+                Ok(n) if n.is_number() => Some(n),
+                _ => Some(json!(t)), // an enum value
+            },
+        }
+    }
+    let chars: Vec<char> = text.chars().collect();
+    let mut i = 0;
+    let v = val(&chars, &mut i)?;
+    ws(&chars, &mut i);
+    if i == chars.len() { Some(v) } else { None }
+}
+
+/// what a default value means at its declared type (GraphQL input coercion): an Int literal at a Float / ID position,
+/// a single value at a list position, absent members of an input object
+fn coerce_default(s: &ASchema, ty: &ATy, v: &Value, skip_none: bool) -> Value {
+    if v.is_null() {
+        return Value::Null;
+    }
+    match ty {
+        ATy::NonNull(i) => coerce_default(s, i, v, skip_none),
+        ATy::List(e) => match v {
+            Value::Array(xs) => Value::Array(xs.iter().map(|x| coerce_default(s, e, x, skip_none)).collect()),
+            single => Value::Array(vec![coerce_default(s, e, single, skip_none)]),
+        },
+        ATy::Named(n) => match (n.as_str(), v) {
+            ("ID", Value::Number(num)) => json!(num.to_string()),
+            (_, Value::Object(m)) => match s.get(n) {
+                Some(AType::Input { one_of: false, fields, .. }) => {
+                    let mut out = Map::new();
+                    for (fname, fty) in fields {
+                        match m.get(fname) {
+                            Some(x) => {
+                                out.insert(fname.clone(), coerce_default(s, fty, x, skip_none));
+                            }
+                            None if !skip_none => {
+                                out.insert(fname.clone(), Value::Null);
+                            }
+                            None => {}
+                        }
+                    }
+                    Value::Object(out)
+                }
+                Some(AType::Input { one_of: true, fields, .. }) => {
+                    let mut out = Map::new();
+                    for (k, x) in m {
+                        if let Some((_, fty)) = fields.iter().find(|(f, _)| f == k) {
+                            out.insert(k.clone(), coerce_default(s, fty, x, skip_none));
+                        }
+                    }
+                    Value::Object(out)
+                }
+                _ => v.clone(),
+            },
+            _ => v.clone(),
+        },
+    }
+}
+
 /// fixed cases that run first: one input object (and one variable list) with a member of EVERY type
 /// expression over a scalar to list depth 2, a nested and a keyword-named member, a @oneOf input
 fn corpus() -> Vec<(ASchema, ADoc)> {
@@ -83,14 +208,47 @@ fn corpus() -> Vec<(ASchema, ADoc)> {
     vars = shapes.iter().enumerate().map(|(i, t)| AVar { name: format!("v{}", i), ty: t.clone(), default: None }).collect();
     vars.push(AVar { name: "withDefault".into(), ty: ATy::named("Int"), default: Some("7".into()) });
     let doc2 = ADoc { ops: vec![AOp { kind: "query", name: "VarShapes".into(), vars, sels: vec![ASel::Field { alias: None, name: "x".into(), sub: vec![] }] }], frags: vec![] };
-    vec![(schema.clone(), doc1.clone()), (schema.clone(), doc1), (schema.clone(), doc2.clone()), (schema, doc2)]
+    // default values of every literal kind at every kind of type (both skip-none settings)
+    let mut dschema = schema.clone();
+    dschema.types.push(AType::Enum { name: "Unit".into(), values: vec!["METER".into(), "type".into(), "lower_case".into()] });
+    let dv = |n: &str, t: ATy, d: &str| AVar { name: n.into(), ty: t, default: Some(d.into()) };
+    let nn = |t: ATy| ATy::NonNull(Box::new(t));
+    let li = |t: ATy| ATy::List(Box::new(t));
+    let doc3 = ADoc {
+        ops: vec![AOp {
+            kind: "query",
+            name: "Defaults".into(),
+            vars: vec![
+                dv("i", ATy::named("Int"), "42"),
+                dv("b", nn(ATy::named("Boolean")), "false"),
+                dv("f", ATy::named("Float"), "1"),
+                dv("g", nn(ATy::named("Float")), "2.5"),
+                dv("id", ATy::named("ID"), "7"),
+                dv("s", ATy::named("String"), "\"he said \\\"hi\\\" \\\\ \\u00e9\""),
+                dv("u", ATy::named("Unit"), "METER"),
+                dv("kw", nn(ATy::named("Unit")), "type"),
+                dv("lc", ATy::named("Unit"), "lower_case"),
+                dv("l", li(ATy::named("Int")), "[1, 2]"),
+                dv("lnn", nn(li(nn(ATy::named("Int")))), "[3]"),
+                dv("ll", li(li(nn(ATy::named("String")))), "[[\"a\"], []]"),
+                dv("single", li(nn(ATy::named("Int"))), "5"),
+                dv("us", li(ATy::named("Unit")), "[METER, type]"),
+                dv("o", ATy::named("Inner"), "{ ids: [\"a\", 2], again: { ids: [] } }"),
+                dv("p", ATy::named("Pick"), "{ by_id: \"x\" }"),
+                dv("pin", nn(ATy::named("Pick")), "{ in: { ids: [\"q\"] } }"),
+            ],
+            sels: vec![ASel::Field { alias: None, name: "x".into(), sub: vec![] }],
+        }],
+        frags: vec![],
+    };
+    vec![(schema.clone(), doc1.clone()), (schema.clone(), doc1), (schema.clone(), doc2.clone()), (schema, doc2), (dschema.clone(), doc3.clone()), (dschema, doc3)]
 }
 
 pub fn run(a: &Args) -> i32 {
     let mut rep = Report::new(
         "C04",
         a,
-        "random operations with 0..3 variables of every input type expression (built-in and custom scalars, enums, input objects nested / recursive / @oneOf, lists to depth 2) compiled into a consumer crate x valid assignments (nullable members null / present / omitted, list lengths 0..3) x skip_serializing_none in {off, on} x normalization in {none, rust}; a case = one assignment deserialized into Variables and serialized through build_query; non-trivial = the assignment contains an input object, a list or a null; distinct by (case, assignment)",
+        "random operations with 0..3 variables of every input type expression (built-in and custom scalars, enums, input objects nested / recursive / @oneOf, lists to depth 2) compiled into a consumer crate x valid assignments (nullable members null / present / omitted, list lengths 0..3) and the declared default values (every literal kind at every kind of type: the value of `Variables::default_x()` must be the default coerced to the declared type) x skip_serializing_none in {off, on} x normalization in {none, rust}; a case = one assignment deserialized into Variables and serialized through build_query; non-trivial = the assignment contains an input object, a list or a null; distinct by (case, assignment)",
     );
     let mut rng = Rng::new(a.seed);
     let n_cases = if rep.thorough() { 300 } else { 40 };
@@ -165,6 +323,48 @@ pub fn run(a: &Args) -> i32 {
                     rep.count(&format!("var_kind:{}", c.schema.kind_of(v.ty.base())));
                 }
                 vs.push(V { case: c.id, module: mi, op: op_struct.clone(), sent, expected, nontrivial });
+            }
+        }
+    }
+    // ---- default values: `Variables::default_x()` must be the declared default, at the declared type
+    {
+        let mut dreqs: Vec<(usize, String, String, String)> = Vec::new();
+        let mut dmeta: Vec<usize> = Vec::new();
+        for c in &u.cases {
+            if c.compiled && c.doc.ops.iter().any(|o| o.vars.iter().any(|v| v.default.is_some())) {
+                dreqs.push((c.id, "defaults".into(), String::new(), "null".into()));
+                dmeta.push(c.id);
+            }
+        }
+        let dreplies = vcore::consumer::run_consumer(&exe, &dreqs);
+        for (cid, raw) in dmeta.iter().zip(dreplies.iter()) {
+            let c = &u.cases[*cid];
+            let mut expected = Vec::new();
+            let mut names = Vec::new();
+            for (mi, op) in c.doc.ops.iter().enumerate() {
+                if mi >= c.modules.len() {
+                    break;
+                }
+                for v in op.vars.iter().filter(|v| v.default.is_some()) {
+                    let lit = v.default.as_deref().unwrap_or("");
+                    names.push(format!("{}.{} = {}", op.name, v.name, lit));
+                    expected.push(parse_literal(lit).map(|j| coerce_default(&c.schema, &v.ty, &j, c.opts.skip_none)));
+                }
+            }
+            rep.case(Some(&format!("defaults|{}|{}", cid, c.qtext)));
+            rep.count_n("default_values", expected.len() as u64);
+            match parse_reply(raw) {
+                Reply::Ok(Value::Array(got)) if got.len() == expected.len() => {
+                    for ((g, e), n) in got.iter().zip(expected.iter()).zip(names.iter()) {
+                        match e {
+                            Some(e) if canon_numbers(g) == canon_numbers(e) => rep.traces_validated += 1,
+                            Some(e) => rep.fail("default-value-differs-from-the-declared-default", json!({"schema": c.sdl, "query": c.qtext, "options": c.opts.describe(), "variable": n, "expected": e, "got": g})),
+                            None => rep.internal.push(format!("cannot read the default literal of {}", n)),
+                        }
+                    }
+                }
+                Reply::Ok(other) => rep.fail("default-value-differs-from-the-declared-default", json!({"query": c.qtext, "reply": other, "expected_count": expected.len()})),
+                _ => rep.internal.push(format!("defaults reply of case {}: {}", cid, raw)),
             }
         }
     }
